@@ -36,7 +36,8 @@ def run(ctx, w):
                    "R3 counts reaching slice primitives are clamped first", "R4 defaults feeding `- 1` are >= 1; constants subtracted from a dimension are <= 1",
                    "R5 progress: call graph acyclic; every arm of the SGR decoder consumes at least one parameter for every shape of following parameters; loops are iterator- or counter-driven",
                    "R6 unwraps are guarded or covered by the exhaustive decoder evaluation", "R7 the digit accumulation cannot overflow its (wider) type and never drops a digit",
-                   "R8 loop-carried indices into the line vector are bounded by its length in the loop condition"]
+                   "R8 loop-carried indices into the line vector are bounded by its length in the loop condition",
+                   "R9 in the arms of a comparison, the difference of the compared values is taken larger-minus-smaller (cannot underflow)"]
     ctx.not_decided = ["every subtraction/index over cols/rows/cursor/lines.len() in Buffer::resize, reflow, logical/relative position (needs relational invariants such as col <= cols, lines.len() >= rows)",
                        "running time beyond loop progress"]
     reach = api_reach(w)
@@ -50,6 +51,9 @@ def run(ctx, w):
     unwraps(ctx, w, S, R, reach)
     digits(ctx, w)
     loop_index(ctx, w, S, reach)
+    from rules import c10
+    c10.ordered_subtractions(ctx, w, reach, "R9")
+    ctx.floor("R9", 4, "differences in comparison arms")
 
 
 # ---- R1 ---------------------------------------------------------------------------------------
